@@ -12,6 +12,6 @@ HERE="$(cd "$(dirname "$0")/.." && pwd)"
 if [ "$WT" = "--with-tests" ]; then
   ( cd "$S" && PYTHONDONTWRITEBYTECODE=1 /venv/bin/python -m pytest -q -x -p no:cacheprovider test_autoarray 2>&1 | tail -3 )
 fi
-VERIF_REPO="$S" "$HERE/check" "$ID" --tier "$TIER" 2>/dev/null | grep -E "^(VIOLATION|KNOWN-FINDING|\[C)" | cut -c1-300 | head -8
+VERIF_EVIDENCE_DIR="$S.ev" VERIF_REPO="$S" "$HERE/check" "$ID" --tier "$TIER" 2>/dev/null | grep -E "^(VIOLATION|KNOWN-FINDING|\[[CX])" | cut -c1-300 | head -8
 RC=$?
-rm -rf "$S"
+rm -rf "$S" "$S.ev"
